@@ -46,6 +46,17 @@ func c02Profile(tier string) *eng.Profile {
 	return p
 }
 
+// c02ManyFilesProfile: one record per segment, up to 24 segments (two-digit file ids), restarts in
+// between, judged against the model in sparse mode.
+func c02ManyFilesProfile(tier string) *eng.Profile {
+	mf := c08ManyFilesProfile(tier)
+	mf.ID, mf.Name = "C02", "sparse-many-files"
+	mf.Cfgs = []core.Cfg{{Mode: core.S, Seg: 50}, {Mode: core.S, RW: core.M, Start: core.M, Seg: 50}}
+	mf.ReopenLeaf = false
+	mf.Judge = func(c *eng.Ctx) { dirFeatures(c); eng.JudgeModel(c, "C02") }
+	return mf
+}
+
 func sparseFeatures(c *eng.Ctx) {
 	if strings.Contains(core.DirText(c.Inst.Dir), ".bptidx") {
 		c.Feature("sealed-segment-index")
@@ -230,6 +241,7 @@ func c04Profile(tier string) *eng.Profile {
 func init() {
 	profileBuilders = append(profileBuilders, func(tier string) {
 		Register(c02Profile(tier))
+		Register(c02ManyFilesProfile(tier))
 		Register(c03Profile(tier))
 		Register(c03BytesProfile(tier))
 		Register(c04Profile(tier))
@@ -243,6 +255,7 @@ func init() {
 		runKVLong(r, "C02", []core.Cfg{{Mode: core.S, Seg: 392}, {Mode: core.S, Seg: 600}, {Mode: core.S, RW: core.M, Start: core.M, Seg: 410}})
 		runValues(r, "C02", false, []int{core.S})
 		r.Explore(c01BytesProfile(r.Tier, "C02"))
+		r.Explore(c02ManyFilesProfile(r.Tier))
 	}
 	Registry["C03"] = func(r *Run) {
 		r.Rule = "every sequence of <=depth ops over {put,expiring put,delete} x 4 prefixed keys + tick + reopen in KV, key-only and sparse mode; in every reached state every PrefixScan(prefix,offset,limit) with offset 0..n+1, limit 1..n+1 and every PrefixSearchScan(prefix,re,0,limit) is compared with 'live prefixed keys, skip offset, take limit'; the same over keys and prefixes made of the extreme byte values (a\\xff, a\\xff\\x00, \\xff, \\xff\\xff)"
